@@ -157,7 +157,12 @@ pub fn run(o: &Opts) -> serde_json::Value {
         let mut eofs = 0;
         let mut any_markup = false;
         for (si, so) in r.obs.iter().enumerate() {
-            match &steps[si] {
+            let eff = match (&steps[si], so.did.as_str()) {
+                (Step::SetCfg { .. }, _) => steps[si].clone(),
+                (_, "rte") => steps[si].clone(),
+                _ => Step::Read,
+            };
+            match &eff {
                 Step::SetCfg { cfg } => {
                     writeln!(f, "{}", json!({"t": "Cfg", "cfg": cfg})).unwrap();
                 }
@@ -183,7 +188,7 @@ pub fn run(o: &Opts) -> serde_json::Value {
                     }
                 }
                 Step::ReadToEnd | Step::ReadText => {
-                    let txt = matches!(steps[si], Step::ReadText) && matches!(src, Src::Slice | Src::Str);
+                    let txt = matches!(eff, Step::ReadText) && matches!(src, Src::Slice | Src::Str);
                     writeln!(f, "{}", json!({"t": "Rte", "k": so.o.k, "e": so.o.e, "b": so.o.b, "s": so.s.map(|(a, b)| vec![a, b]).unwrap_or_default(),
                         "p": so.o.p, "q": so.o.q, "c": so.c.unwrap_or([9; 7]), "txt": if txt {1} else {0}})).unwrap();
                 }
